@@ -190,4 +190,5 @@ os.makedirs(os.path.dirname(OUT), exist_ok=True)
 old = open(OUT).read() if os.path.exists(OUT) else None
 if old != body:
     open(OUT, "w").write(body)
+status["_values"] = {"search_kind_order": order, "display_kind_order": dorder, "panic_sites": [[r, a, b, c] for r, a, b, c in sites]}
 print(json.dumps(status))
